@@ -169,7 +169,9 @@ class Runner:
             return F.Answer(F.GARBAGE)
         b = e["bp"] if seen.kind == "profile" else e["bm"]
         cookies = ["c%d=v%d; Path=/" % (n, v) for n, v in e["cookies"]]
-        status = 500 if e["http_error"] else 200
+        # an HTTP error is 500, 404, or a 307 / 308 redirect of the POST to another URL (urllib refuses to follow those for
+        # a POST: an error like the others — a client that follows them sends the request, credentials and all, twice)
+        status = (500, 307, 404, 308)[(seen.n - self.base) % 4] if e["http_error"] else 200
         if b[0] == "p":
             ms = [(k, url_str(tuple(u))) for k, u in self.case["adv"][str(b[2])]]
             return F.Answer(prof_bytes(b[1], b[2], ms), cookies, status)
